@@ -174,6 +174,10 @@ def lock(ctx, report, rule, facts, config):
     for b in sorted(facts.bodies.values(), key=lambda b: b.key):
         for bb, t in b.normal_calls():
             c = Callee(t["func"])
+            # the lock in question is the one around the pool slot (another lock of the crate's own is not this rule's business)
+            about_pool = "ThreadPool" in I.recv_ty(t) or "ThreadPool" in (c.inst_path or "")
+            if not about_pool:
+                continue
             if "RwLock" in c.path and c.name in ("read", "try_read"):
                 reads.setdefault(b.qname, []).append(b.loc(bb))
             elif ("RwLock" in c.path or "Mutex" in c.path) and c.name in ("write", "try_write", "lock", "try_lock"):
@@ -214,12 +218,7 @@ def lock(ctx, report, rule, facts, config):
         reach = [x.qname for x in facts.cone([root], stop=lambda b: b.self_head == A.STAGE).values() if x.qname in reads]
         report.ob(rule, "read/%s" % q, bool(reach), "shared (non-poisoning) lock around the dispatch (in %s)" % reach if reach else
                   "%s no longer takes the shared lock on the pool slot" % q, site=root.loc(), config=config)
-    r_cone = facts.cone(r_roots)
-    for q in sorted(reads):
-        b = by_q[q]
-        ok = b.key in r_cone or b.key in cfg_cone
-        if not ok:
-            report.ob(rule, "read/%s" % q, False, "unexpected read-lock site %s (outside the dispatching entry points and the builder)" % q, site=reads[q][0], config=config)
+    # a shared lock taken elsewhere (a Debug impl peeking at the slot) neither poisons nor excludes a dispatch: not reported
 
 
 # ------------------------------------------------------------------ C11
